@@ -201,6 +201,16 @@ func padFor(tok string, n int) string {
 
 type customPanic struct{ A int }
 
+// nilStringer / nilErr: typed nil pointers whose own String()/Error() methods dereference the receiver,
+// i.e. panic payloads that panic again when something tries to format them naively.
+type nilStringer struct{ s string }
+
+func (n *nilStringer) String() string { return n.s }
+
+type nilErr struct{ s string }
+
+func (n *nilErr) Error() string { return n.s }
+
 // RevClient is the reverse-call proxy struct handlers extract from their context.
 type RevClient struct {
 	Ident func(ctx context.Context, tok string) (string, error)
@@ -224,6 +234,9 @@ func (a *TokAPI) body(ctx context.Context, tok string, plan Plan) (Result, error
 		case <-done:
 			if plan.ReactMs > 0 {
 				time.Sleep(time.Duration(plan.ReactMs) * time.Millisecond)
+			}
+			if plan.Panic != "" {
+				panic("cleanup-after-cancel-boom-" + tok)
 			}
 			return Result{}, ctx.Err()
 		}
@@ -304,6 +317,12 @@ func (a *TokAPI) body(ctx context.Context, tok string, plan Plan) (Result, error
 		_ = p.Tok
 	case "custom":
 		panic(customPanic{A: 7})
+	case "nilstringer":
+		var n *nilStringer
+		panic(n)
+	case "nilerror":
+		var n *nilErr
+		panic(error(n))
 	case "index":
 		var sl []int
 		_ = sl[len(tok)]
